@@ -348,15 +348,15 @@ class Impl:
     def op_BInsert(self, r, pos, f, args, dur, name):
         if pos == 2 and dur is not None:
             # the deprecated spelling of the same argument (insertSegment(..., durs=...)): same meaning
-            self.B[r].insertSegment(pos, pyfn(f), tuple(args), durs=dur, name=name)
+            self.B[r].insertSegment(pos, pyfn(f), self.arg_values(args), durs=dur, name=name)
         else:
-            self.B[r].insertSegment(pos, pyfn(f), tuple(args), dur=dur, name=name)
+            self.B[r].insertSegment(pos, pyfn(f), self.arg_values(args), dur=dur, name=name)
 
     def op_BRemove(self, r, n):
         self.B[r].removeSegment(n)
 
     def op_BChangeArg(self, r, n, a, v, ev):
-        self.B[r].changeArg(n, a, v, ev)
+        self.B[r].changeArg(n, a, self.arg_value(v), ev)
 
     def op_BChangeDur(self, r, n, d, ev):
         self.B[r].changeDuration(n, d, ev)
@@ -408,7 +408,7 @@ class Impl:
         self.E[e].addFlags(c, list(fl))
 
     def op_EChangeArg(self, e, c, n, a, v, ev):
-        self.E[e].changeArg(c, n, a, v, ev)
+        self.E[e].changeArg(c, n, a, self.arg_value(v), ev)
 
     def op_EChangeDur(self, e, c, n, d, ev):
         self.E[e].changeDuration(c, n, d, ev)
@@ -445,10 +445,34 @@ class Impl:
             self.S[s].setChannelFilterCompensation(c, kind, order=(1.5 if order is None else order), f_cut=fcut, tau=tau)
 
     def op_SAddElement(self, s, pos, e):
+        getattr(self, "handles", {}).pop((s, pos), None)
         self.S[s].addElement(pos, self.E[e])
 
     def op_SAddSub(self, s, pos, s2):
+        getattr(self, "handles", {}).pop((s, pos), None)
         self.S[s].addSubSequence(pos, self.S[s2])
+
+    def op_HHoldHandles(self):
+        """Harness-only: fetch `seq.element(pos)` for every element position of every sequence built so far and keep
+        the handles; later SElemChangeArg / SElemChangeDur on such a position go through the retained handle instead
+        of a fresh `element(pos)` call (until the position is refilled or the register rebound).  The library returns
+        the stored object itself, so the meaning is the same and the model sees nothing; what differs is that no
+        `element()` call happens between an export and the edit."""
+        self.handles = {}
+        for s, sq in self.S.items():
+            for pos in list(sq._data.keys()):
+                try:
+                    h = sq.element(pos)
+                except Exception:  # noqa: BLE001
+                    continue
+                if isinstance(h, self.Element):
+                    self.handles[(s, pos)] = (sq, h)
+
+    def elem_handle(self, s, pos):
+        h = getattr(self, "handles", {}).get((s, pos))
+        if h is not None and h[0] is self.S[s]:
+            return h[1]
+        return self.S[s].element(pos)
 
     def op_SSetSequencing(self, s, pos, f, v):
         m = {"twait": "setSequencingTriggerWait", "nrep": "setSequencingNumberOfRepetitions",
@@ -463,6 +487,21 @@ class Impl:
         """Harness-only: from here on integer sequencing values reach the library as numpy integer scalars (what
         np.arange or array indexing hand to a user's script); the model sees the same integers."""
         self.np_ints = True
+
+    def op_HArrayArgs(self):
+        """Harness-only: from here on numeric segment arguments reach the library as zero-dimensional numpy arrays
+        (what np.array(x), arr.mean() on some versions, or xarray / h5py reads hand to a user's script): mutable
+        objects inside the argument tuples.  The model sees the same numbers.  Only used in programs without JSON ops
+        (json cannot serialise an ndarray; no property asks for that)."""
+        self.arr_args = True
+
+    def arg_value(self, v):
+        if getattr(self, "arr_args", False) and isinstance(v, (int, float)) and not isinstance(v, bool):
+            return np.array(float(v))
+        return v
+
+    def arg_values(self, args):
+        return tuple(self.arg_value(a) for a in args)
 
     def int_value(self, v):
         if getattr(self, "np_ints", False) and isinstance(v, int) and not isinstance(v, bool):
@@ -482,10 +521,10 @@ class Impl:
         self.S[s2] = self._json(self.S[s], self.Sequence)
 
     def op_SElemChangeArg(self, s, pos, c, n, a, v, ev):
-        self.S[s].element(pos).changeArg(c, n, a, v, ev)
+        self.elem_handle(s, pos).changeArg(c, n, a, self.arg_value(v), ev)
 
     def op_SElemChangeDur(self, s, pos, c, n, d, ev):
-        self.S[s].element(pos).changeDuration(c, n, d, ev)
+        self.elem_handle(s, pos).changeDuration(c, n, d, ev)
 
     # tools
     def op_TVarying(self, e, cs, ns, ars, its, s):
@@ -501,7 +540,8 @@ class Impl:
     # observations
     def op_OBDescr(self, r):
         d = self.B[r].description
-        json.dumps(d)                      # C19: always JSON-serialisable
+        if not getattr(self, "arr_args", False):
+            json.dumps(d)                      # C19: always JSON-serialisable
         return d
 
     def op_OBForge(self, r):
@@ -527,7 +567,8 @@ class Impl:
 
     def op_OEDescr(self, e):
         d = self.E[e].description
-        json.dumps(d)
+        if not getattr(self, "arr_args", False):
+            json.dumps(d)
         return d
 
     def op_OEValidate(self, e):
@@ -715,6 +756,8 @@ def compare(m, x, path="$"):
             x = bool(x)
         return [] if (x == m and type(x) is type(m)) or (m is None and x is None) else [f"{path}: model {m!r} impl {short(x)}"]
     if isinstance(m, (int, Fraction)) and not isinstance(m, bool):
+        if isinstance(x, np.ndarray) and x.ndim == 0:
+            x = x.item()                      # a zero-dimensional array is the number it holds (HArrayArgs)
         if isinstance(x, (bool, np.bool_)) or not isinstance(x, (int, float, np.integer, np.floating)):
             return [f"{path}: model number {m} impl {short(x)}"]
         if isinstance(m, int):
@@ -748,8 +791,14 @@ def short(v, n=160):
     return s if len(s) <= n else s[:n] + "..."
 
 
+def unbox0(v):
+    """A zero-dimensional array is the scalar it holds."""
+    return v.item() if isinstance(v, np.ndarray) and v.ndim == 0 else v
+
+
 def compare_plain(a, b):
     """Structural equality of two implementation values (nested lists / tuples / arrays / numbers)."""
+    a, b = unbox0(a), unbox0(b)
     if isinstance(a, (list, tuple, np.ndarray)) and isinstance(b, (list, tuple, np.ndarray)):
         if len(a) != len(b):
             return True
@@ -761,6 +810,7 @@ def compare_plain(a, b):
 
 def compare_plain_dict(a, b):
     """Structural equality of two implementation values that may contain dicts (True when they differ)."""
+    a, b = unbox0(a), unbox0(b)
     if isinstance(a, dict) and isinstance(b, dict):
         if set(a) != set(b):
             return True
@@ -778,7 +828,7 @@ def compare_plain_dict(a, b):
 
 # ops of the harness that the model sees as a short sequence of its own ops (one implementation call, one observation)
 MACROS = {"SSetRange": lambda s, c, a, o: [("SSetAmp", s, c, a), ("SSetOff", s, c, o)],
-          "HNumpyInts": lambda: []}
+          "HNumpyInts": lambda: [], "HArrayArgs": lambda: [], "HHoldHandles": lambda: []}
 
 
 def expand_macros(prog):
